@@ -324,6 +324,17 @@ func (ci *cidx) mkBounded(fn *ssa.Function, keyOverride string, level int) func(
 						return true
 					}
 				}
+				// len-1 as a slice end (dropping the last element), where the storage is known not to be empty: some
+				// index was found below its length on the way
+				if x.Op == token.SUB && upperInclusive && isLenLike(x.X) {
+					if k, isK := intConst(x.Y); isK && k == 1 {
+						for _, f := range impliedConds(at) {
+							if bo, ok := f.Cond.(*ssa.BinOp); ok && ((bo.Op == token.LSS && f.Truth && isLenLike(bo.Y)) || (bo.Op == token.GEQ && !f.Truth && isLenLike(bo.Y)) || (bo.Op == token.GTR && f.Truth && isLenLike(bo.X))) {
+								return true
+							}
+						}
+					}
+				}
 			case *ssa.Phi:
 				// fall through to the dominating test
 			}
